@@ -60,6 +60,11 @@ extern "C" void harness() {
   Gudhi::coxeter_triangulation::Freudenthal_triangulation<PR> tr(d);
   std::vector<double> p; int p4[4];
   for (int i = 0; i < d; i++) { p4[i] = vp_fork_int(vp_int("p", -4, 4)); p.push_back(p4[i] / 4.0); }   // grid {-1,-3/4,...,1}: hits faces of every dimension and equal fractional parts
+#ifdef VP_OFFSET   /* affine transformation with a non-trivial offset (multiples of 1/4), set after construction or through the constructor */
+  int o4[4]; { Eigen::VectorXd off(d); for (int i = 0; i < d; i++) { o4[i] = vp_fork_int(vp_int("off", 0, 3)); off(i) = o4[i] / 4.0; }
+    if (vp_fork_int(vp_int("how", 0, 1))) tr.change_offset(off); else tr = Gudhi::coxeter_triangulation::Freudenthal_triangulation<PR>(d, Eigen::MatrixXd::Identity(d, d), off); }
+  for (int i = 0; i < d; i++) p4[i] -= o4[i];   // the oracle below works in the coordinates of the untranslated triangulation
+#endif
   PR s = tr.locate_point(p);
   // exact characterisation of "p lies in the relative interior of s": p - vertex is constant on each part, strictly decreasing from part to part, in [0,1), zero on the last part (which holds the index d)
   vp_assert((int)s.vertex().size() == d, "located simplex lives in dimension d");
@@ -68,7 +73,11 @@ extern "C" void harness() {
     if (mu == -100 || mu >= prev || mu < 0) ok = false; prev = mu; if (m == npart - 1) { bool hasd = false; for (auto j : s.partition()[m]) if (j == (std::size_t)d) hasd = true; if (!hasd || mu != 0) ok = false; } }
   for (int j = 0; j <= d; j++) if (!seen[j]) ok = false;
   vp_assert(ok, "the point is a convex combination of the returned vertices with all weights > 0 (relative interior)");
-  { auto b = tr.barycenter(s); auto verts = verts_of(s); for (int i = 0; i < d; i++) { double sum = 0; for (auto& v : verts) sum += v[i]; vp_assert(b(i) * (double)verts.size() == sum, "barycenter = mean of the vertices (Freudenthal: Cartesian coordinates = integer coordinates)"); } }
+  { auto b = tr.barycenter(s); auto verts = verts_of(s); for (int i = 0; i < d; i++) { double sum = 0; for (auto& v : verts) sum += v[i]; 
+#ifdef VP_OFFSET
+      sum += verts.size() * (o4[i] / 4.0);
+#endif
+      { double df = b(i) * (double)verts.size() - sum; vp_assert(df <= 1e-12 && df >= -1e-12, "barycenter = mean of the vertices (Freudenthal: Cartesian coordinates = integer coordinates + offset; thirds are not dyadic: 1e-12)"); } } }
 #endif
   vp_reach("end");
 }
